@@ -224,6 +224,24 @@ theorem checkMetas_ok {ms : List (Name × Option Nat)} (h : checkMetas ms = none
       · rw [hp]; rfl
       · exact ih h m hm
 
+/-- The central records accepted before the first rejected one carry names accepted by
+`enclosed_name`. -/
+theorem checked_enclosed : ∀ (ms : List (Name × Option Nat)),
+    ∀ m ∈ ms.take (checkedCount ms), (enclosedName m.1).isSome = true := by
+  intro ms
+  induction ms with
+  | nil => intro m hm; simp at hm
+  | cons m0 ms ih =>
+    intro m hm
+    simp only [checkedCount] at hm
+    split at hm
+    · simp at hm
+    · next p hp =>
+      rw [List.take_succ_cons] at hm
+      rcases List.mem_cons.mp hm with rfl | hm
+      · rw [hp]; rfl
+      · exact ih m hm
+
 theorem extractStream_steps (c : Cfg) (root : Path) (files : List EntryView)
     (metas : List (Name × Option Nat)) (fs : FS) :
     Steps root fs (extractStream c root files metas fs).1 := by
@@ -236,7 +254,8 @@ theorem extractStream_steps (c : Cfg) (root : Path) (files : List EntryView)
     split
     · exact h1
     · split
-      · exact h1
+      · exact h1.trans (applyModes_steps c root _ fs1
+          (fun m hm => checked_enclosed metas m (mem_modeOrder hm).1))
       · next hck =>
         exact h1.trans (applyModes_steps c root _ fs1
           (fun m hm => checkMetas_ok hck m (mem_modeOrder hm).1))
